@@ -102,8 +102,8 @@ func (r *Run) finish(crashes []Crash, fatal error) int {
 		// a child that was killed from OUTSIDE says nothing about the code under test: SIGKILL (the
 		// kernel's OOM killer, an operator), SIGQUIT sent to it, or the Go runtime failing to get
 		// memory from the operating system
-		if strings.Contains(c.Exit, "signal: killed") || strings.HasPrefix(c.Cause, "SIGQUIT") ||
-			strings.Contains(c.Cause, "out of memory") || strings.Contains(c.Cause, "cannot allocate memory") {
+		if !c.Confirmed && (strings.Contains(c.Exit, "signal: killed") || strings.HasPrefix(c.Cause, "SIGQUIT") ||
+			strings.Contains(c.Cause, "out of memory") || strings.Contains(c.Cause, "cannot allocate memory")) {
 			inconclusive = append(inconclusive, fmt.Sprintf("shard %d was killed from outside or ran out of memory (%s; %s) during case %q", c.Shard, c.Exit, c.Cause, c.Case))
 			continue
 		}
